@@ -56,7 +56,8 @@ FirstBad(ok) == IF \A j \in DOMAIN ok : ok[j] THEN 0 ELSE CHOOSE j \in DOMAIN ok
 
 JudgeConstruct(t, k) ==
   LET e == Tr[t][k]  f == FormOf(e) IN
-  IF ~(k = 1 /\ Dom_Form(f) /\ Dom_Kinds(e.kinds) /\ Dom_KindValues(e.kinds, e.scale, <<>>))
+  IF ~(k = 1 /\ Dom_Form(f) /\ Dom_Kinds(e.kinds) /\ Dom_KindValues(e.kinds, e.scale, <<>>)
+       /\ Dom_BoxKind(e.kinds, e.scale, <<f[2], f[3]>>))
   THEN PrintT(<<"MISMATCH", t, k, 0, "domain">>)
   ELSE IF e.changed # <<>> THEN PrintT(<<"MISMATCH", t, k, 0, "callers_array_changed">>)
   ELSE IF FormOutcome(f) = "Rejected"
